@@ -19,7 +19,7 @@ from . import render, rsx
 
 ROOT = os.path.dirname(os.path.dirname(os.path.abspath(__file__)))
 REPO = os.environ.get('DV_REPO', '/repo')
-BUILD = os.path.join(ROOT, 'build')
+BUILD = os.environ.get('DV_BUILD') or os.path.join(ROOT, 'build')
 UNITS = os.path.join(ROOT, 'units')
 
 TRUSTED_BASE = [
@@ -268,6 +268,10 @@ def auto_extract(unit, spec, ex, compiler_output):
     """A refactor may move part of an extracted function into a new helper.  When the generated crate
     fails to compile with `no method named X` / `cannot find function X`, look X up in the impl blocks
     the template declares //@autofns slots for and paste it verbatim.  Returns True if anything was added."""
+    if not getattr(ex, 'real_error', False) and re.search(
+            r'interpreted as an associated constant, not a new binding|expected tuple struct or tuple variant, found associated function `Error::', compiler_output):
+        ex.real_error = True
+        return True
     names = set(re.findall(r'no method named `(\w+)` found', compiler_output))
     names |= set(re.findall(r'no function or associated item named `(\w+)` found', compiler_output))
     names |= set(re.findall(r'cannot find function `(\w+)` in this scope', compiler_output))
